@@ -8,7 +8,12 @@
 (*           GoAWK dialect (main) and under the other dialects that matter for  *)
 (*           the string (alts: only consistency is judged on open forms);       *)
 (*  fam "p": an ordered pair of the value set with the six operators;           *)
-(*  fam "v": a number converted to a string with CONVFMT and OFMT.              *)
+(*  fam "v": a number converted to a string with CONVFMT and OFMT;              *)
+(*  fam "c": a decimal of 16-19 significant digits (beyond what this text can   *)
+(*           turn into a float64, so its value is Unm): all that is predicted   *)
+(*           is what Consistent states -- comparison and arithmetic read the    *)
+(*           same number out of it, so v == v+0 holds and v < v+0, v > v+0 do   *)
+(*           not, for the numeric-string provenances.                           *)
 (* Strings of up to FullLen symbols are all exported; longer ones (up to        *)
 (* MaxLen) only in the stratum Stratum of NStrata (chosen by the seed).         *)
 EXTENDS ValuesCases, TLC, Json
@@ -28,7 +33,18 @@ NonIntegralNum(v) == v.tag = "num" /\ v.n.t = "fin" /\ ~IsIntegral(v.n)
 PairCfs(a1, b1) == IF (NonIntegralNum(a1) /\ b1.tag \in {"str", "strnum"}) \/ (NonIntegralNum(b1) /\ a1.tag \in {"str", "strnum"})
                    THEN {1, 3, 6} ELSE {1}
 
-Init == \/ k = "s0" /\ s = <<>> /\ len = 0 /\ a = VNull
+\* digits of the long decimals: a fixed pseudo-random sequence per seed value
+LDig(j, sd) == (j * j * 7 + j * sd * 3 + sd + (j \div 3) * (sd \div 2)) % 10
+LongDec(ni, nf, sd, neg) ==
+  (IF neg THEN <<MINUS>> ELSE <<>>)
+  \o [j \in 1..ni |-> 48 + (IF j = 1 THEN 1 + (LDig(j, sd) % 9) ELSE LDig(j, sd))] \o <<DOT>>
+  \o [j \in 1..nf |-> 48 + (IF j = nf THEN 1 + (LDig(ni + j, sd) % 9) ELSE LDig(ni + j, sd))]
+LongDecs == {LongDec(ni, nf, sd, neg) : ni \in {0, 1, 3, 8}, nf \in 8..19, sd \in 1..6, neg \in BOOLEAN}
+ConsCase(str) == [fam |-> "c", s |-> str, cls |-> "long-decimal", cf |-> CfText(CFs[1]), of |-> CfText(CFs[1]),
+                  looks |-> WholeParse(str, GoawkDialect).t # "str"]
+
+Init == \/ k = "c0" /\ s \in {str \in LongDecs : Len(SelectSeq(str, LAMBDA ch : ch >= 48 /\ ch <= 57)) \in 16..19} /\ len = 0 /\ a = VNull
+        \/ k = "s0" /\ s = <<>> /\ len = 0 /\ a = VNull
         \/ k = "a" /\ s = <<>> /\ len = 0 /\ a \in Vals
         \/ k = "n" /\ s = <<>> /\ len = 0 /\ a \in {VNum(n1) : n1 \in ToStrNums}
 
@@ -49,6 +65,10 @@ PickCf == /\ k = "n" /\ k' = "v"
                /\ len' = j * 10 + i
                /\ PrintT(ToJson(ToStrCase(a.n, CFs[j], CFs[i])))
           /\ UNCHANGED <<s, a>>
-Next == Start \/ Feed \/ PickB \/ PickCf
+Cons == /\ k = "c0" /\ k' = "c"
+        /\ Assert(Consistent(s, GoawkDialect) /\ WholeParse(s, GoawkDialect).t # "str", <<"MODEL DEFECT: long decimal not consistent", s>>)
+        /\ PrintT(ToJson(ConsCase(s)))
+        /\ UNCHANGED <<s, len, a>>
+Next == Start \/ Feed \/ PickB \/ PickCf \/ Cons
 Spec == Init /\ [][Next]_vars
 =============================================================================
